@@ -13,7 +13,7 @@ CONSTANTS
   Sizes = {1, 2, 3, 5}
   Pads = {0, 1, 2, 3}
   Props = {0, 77, 113}
-  CtlFroms = {2, 3, 4, 5, 6, 7, 8, 9, 11, 13, 16, 19, 22, 26, 30, 34, 38}
+  CtlFroms = {2, 3, 4, 5, 6, 8, 11, 16, 22, 26, 30, 38}
   MemSizes = {1, 2, 3, 0}
   LockBits = {1, 7, 9, 12, 17, 0}
   CtlTypes = {1, 2}
